@@ -18,7 +18,7 @@ import os, re, subprocess, sys, importlib, math
 import vcommon
 from vcommon import VERIF
 
-PROPS = ["Bee2V/C14/Props.lean", "Bee2V/Gen/C14Obl.lean", "Bee2V/Gen/C14Obl32.lean"]
+PROPS = ["Bee2V/C14/Props.lean", "Bee2V/Gen/C14Obl.lean", "Bee2V/Gen/C14Obl32.lean", "Bee2V/Gen/C14OblPrim.lean"]
 if os.path.exists(os.path.join(vcommon.LEAN, "Bee2V/C14/PropsCmp.lean")):
     PROPS.append("Bee2V/C14/PropsCmp.lean")
 WB = 64          # bits per machine word of the configuration the cases are generated for
@@ -54,6 +54,13 @@ def regen(ctx):
     ctx.regen("Bee2V/Gen/C14IR32.lean", t32)
     ctx.regen("Bee2V/Gen/C14Obl32.lean", x.generate_obl(funs32, "C14IR32", "Obl32"))
     GEN32.update({"W": W32, "funs": funs32})
+    # block primitives (branches-only observation model) and the program executed for the value tie
+    tp, Wp, funsp, _, _ = x.generate(module="C14Prim", prim=True)
+    ctx.regen("Bee2V/Gen/C14Prim.lean", tp)
+    ctx.regen("Bee2V/Gen/C14OblPrim.lean", x.generate_obl(funsp, "C14Prim", "OblPrim", strict=False))
+    GEN32.update({"Wp": Wp, "funsp": funsp})
+    tx, Wx, funsx, _, _ = x.generate(module="C14Exec", prim="exec")
+    ctx.regen("Bee2V/Gen/C14Exec.lean", tx)
     return x, W, funs, roots, safes
 
 
@@ -461,10 +468,71 @@ def unexpected(conds):
 
 # ------------------------------------------------------------------------------ run
 
+KINDS = None
+
+
+def prim_ir_cases(ctx):
+    """block primitives: their IR (program C14Exec) is executed by the driver and compared with the real routine"""
+    rng = ctx.rng
+    rb = lambda n: hexs([rng.getrandbits(8) for _ in range(n)])
+    out = []
+    for _ in range(6):
+        for f in ("beltBlockEncr", "beltBlockDecr", "beltBlockEncr2", "beltBlockDecr2"):
+            out.append("irx %s s%s s%s" % (f, rb(16), rb(32)))
+        out.append("irx beltCompr s%s s%s z64" % (rb(32), rb(32)))
+        out.append("irx beltCompr2 s%s s%s s%s z64" % (rb(16), rb(32), rb(32)))
+        out.append("irx beltPolyMul s%s s%s s%s z1024" % (rb(16), rb(16), rb(16)))
+        out.append("irx beltBlockMulC s%s" % rb(16))
+        out.append("irx ppRedBelt s%s" % rb(32))
+        out.append("irx bashF s%s z8" % rb(192))
+    for blk in ("00" * 16, "ff" * 16, "80" + "00" * 15, "00" * 15 + "80"):
+        out.append("irx beltBlockEncr s%s s%s" % (blk, "00" * 32))
+        out.append("irx beltBlockMulC s%s" % blk)
+        out.append("irx beltPolyMul s%s s%s s%s z1024" % ("00" * 16, blk, "ff" * 16))
+    out.append("irx bashF s%s z8" % ("00" * 192))
+    out.append("irx bashF s%s z8" % ("ff" * 192))
+    return out
+
+
+def stepvx_lines(ctx, exe, x, W, thorough):
+    """whole Verify steps on real states: pass 1 (`tag`, `state`) asks the library for the true tag and for the
+    state octets before the step, pass 2 (`stepvx`) runs the real step and the IR of the step (StepG_internal and
+    block primitives included) on that state; result and state afterwards are compared"""
+    rng = ctx.rng
+    pre, meta = [], []
+    for kind, src, rec, fld, tl, keyed in KINDS:
+        lay = W.tu(src).layouts().get(rec)
+        rngs = ",".join("%d:8" % lay[f] for (r, f) in sorted(x.PUBFIELDS) if r == rec and f in lay) or "-"
+        for dl in ([0, 1, 15, 16, 17, 31, 32, 33, 64, 191, 192, 200] if thorough else [0, 5, 16, 32, 33, 192]):
+            key = hexs([rng.getrandbits(8) for _ in range(rng.choice([16, 24, 32]) if kind.startswith("beltMAC") or "DWP" in kind or "CHE" in kind else rng.choice([1, 32, 40]))]) if keyed else "-"
+            iv = hexs([rng.getrandbits(8) for _ in range(16)])
+            data = hexs([rng.getrandbits(8) for _ in range(dl)])
+            tlen = tl if kind != "bashHashStepV" else rng.choice([32, 48, 64])
+            pre.append("tag %s %s %s %s %d" % (kind, key, iv, data, tlen))
+            pre.append("state %s %s %s %s %d" % (kind, key, iv, data, tlen))
+            meta.append((kind, tlen, rngs))
+    out, err, rc = ctx.run_lines(exe, pre)
+    if rc != 0 or len(out) != len(pre):
+        raise RuntimeError("c14 harness failed on tag/state lines: " + err[-400:])
+    lines = []
+    for i, (kind, tlen, rngs) in enumerate(meta):
+        t, st = out[2 * i], out[2 * i + 1]
+        tb = list(bytes.fromhex(t))
+        lens = [tlen] if not kind.endswith("2") and kind != "bashHashStepV" else sorted(set([1, tlen // 2, tlen]))
+        for ln in lens:
+            ln = min(ln, len(tb))
+            v = list(tb[:ln])
+            lines.append("stepvx %s %s %s %d %s" % (kind, st, hexs(v), ln, rngs))
+            v[rng.randrange(ln)] ^= rng.choice([1, 128])
+            lines.append("stepvx %s %s %s %d %s" % (kind, st, hexs(v), ln, rngs))
+    return lines
+
+
 def stepv_lines(ctx, exe, x, W, thorough):
     """two passes: `tag` lines give the true tag of the real library; `stepv` lines carry it to the IR side"""
+    global KINDS
     rng = ctx.rng
-    kinds = [("beltMACStepV", "src/crypto/belt/belt_mac.c", "belt_mac_st", "mac", 8, True),
+    kinds = KINDS = [("beltMACStepV", "src/crypto/belt/belt_mac.c", "belt_mac_st", "mac", 8, True),
              ("beltMACStepV2", "src/crypto/belt/belt_mac.c", "belt_mac_st", "mac", 8, True),
              ("beltDWPStepV", "src/crypto/belt/belt_dwp.c", "belt_dwp_st", "t1", 8, True),
              ("beltCHEStepV", "src/crypto/belt/belt_che.c", "belt_che_st", "t1", 8, True),
@@ -625,6 +693,17 @@ def word_pass(ctx, wb, cfg, x, W, thorough, translator_error, have_cmp, drv_ok):
                 mism += m2
                 ctx.cov["stepv_accept" + tag] = sum(1 for o in c2 if o == "1")
                 ctx.cov["stepv_reject" + tag] = sum(1 for o in c2 if o == "0")
+                if wb == 64:
+                    # value tie of the block primitives, of the whole Verify steps and of beltKWPUnwrap (program C14Exec)
+                    px = prim_ir_cases(ctx)
+                    m3, _, _ = ctx.diff_run(exe, px, "primitives-ir-vs-impl")
+                    svx = stepvx_lines(ctx, exe, x, W, thorough)
+                    m4, c4, _ = ctx.diff_run(exe, svx, "stepvx-vs-impl")
+                    ctx.cov["stepvx_accept"] = sum(1 for o in c4 if o.startswith("1 "))
+                    kwl, _ = kwp_lines(ctx, exe)
+                    m5, _, _ = ctx.diff_run(exe, kwl, "kwpunwrap-ir-vs-impl")
+                    mism += m3 + m4 + m5
+                    sv_lines = sv_lines + px + svx[::3]
             except RuntimeError as e:
                 ctx.notes.append(str(e)[:300])
                 mism.append((-1, "driver", "", str(e)[:300]))
@@ -658,11 +737,12 @@ def run(ctx):
     diag = []
     if not translator_error:
         try:
-            diag = x.diagnose(funs, W) + ["[w32] " + d for d in x.diagnose(GEN32["funs"], GEN32["W"])]
+            diag = x.diagnose(funs, W) + ["[w32] " + d for d in x.diagnose(GEN32["funs"], GEN32["W"])] + \
+                ["[primitives] " + d for d in x.diagnose(GEN32["funsp"], GEN32["Wp"], strict=False, opaque=x.PRIM_OPAQUE)]
         except Exception as e:
             diag = ["diagnose failed: %s" % e]
     have_cmp = os.path.exists(os.path.join(vcommon.LEAN, "Bee2V/C14/PropsCmp.lean"))
-    targets = ["Bee2V.C14.Props", "Bee2V.Gen.C14Obl", "Bee2V.Gen.C14Obl32"] + (["Bee2V.C14.PropsCmp"] if have_cmp else [])
+    targets = ["Bee2V.C14.Props", "Bee2V.Gen.C14Obl", "Bee2V.Gen.C14Obl32", "Bee2V.Gen.C14OblPrim"] + (["Bee2V.C14.PropsCmp"] if have_cmp else [])
     if translator_error:
         proof_ok, log = False, "translator: " + translator_error
         # the driver (hand models + previous IR) is still needed for the correspondence of B
@@ -671,7 +751,7 @@ def run(ctx):
         proof_ok, log = ctx.prove(targets, PROPS)
     failed_routines = []
     if not proof_ok and not translator_error:
-        for fn_, sfx in (("C14Obl", ""), ("C14Obl32", "[w32]")):
+        for fn_, sfx in (("C14Obl", ""), ("C14Obl32", "[w32]"), ("C14OblPrim", "[primitive]")):
             obl = open(os.path.join(vcommon.LEAN, "Bee2V/Gen/%s.lean" % fn_)).read().split("\n")
             for f, ln in re.findall(r"error: (\S*%s\.lean):(\d+)" % fn_, log):
                 m = re.match(r"theorem ct_(\w+) ", obl[int(ln) - 1]) if int(ln) - 1 < len(obl) else None
